@@ -4,7 +4,10 @@ in the driver builds real tokens from abstract descriptions and presents them to
 routes; accept/reject/user must equal the extracted model, and the property's own predicates are
 evaluated on the implementation's answers. The premise of the wrong-kind theorems (pairwise distinct secrets)
 is observed after every way of configuring the server (package defaults, every shipped ini file, every subset
-of the three secrets set by a site) and the cross-kind matrix is repeated under the secrets then in force."""
+of the three secrets set by a site) and the cross-kind matrix is repeated under the secrets then in force.
+Histories: whole sequences of presentations run in ONE driver process (the same tokens again and again at every verifier and
+wrapper, the server's own clock passing the exp of genuine short-lived tokens between two presentations, thousands of distinct
+genuine tokens verified in between and presented again); every step is judged from the clock readings before/after it."""
 import os, sys, itertools, glob, shutil, tempfile
 sys.path.insert(0, os.path.join(os.path.dirname(os.path.abspath(__file__)), "..", "lib"))
 import vf
@@ -679,12 +682,18 @@ def main():
     c.cov["exhaustive_parts"] = ["every single-field mutation of a valid access / refresh / e-mail(2 contexts) token, each presented to all six verifiers/wrappers",
                                  "refresh expiry distances -4..+4 s around the pairing window x user pairs x client-info combinations",
                                  "secrets in force: package defaults, api.InitConfig() with nothing configured, every *.ini of the repository and a site ini for every subset of the three secrets (8), each loaded by api.InitConfig() after viper and by initgin.InitAllConfig in a process of its own; "
-                                 "under each: all cross-uses of forged and server-issued tokens of the three kinds / two contexts at every verifier, wrapper and route"]
+                                 "under each: all cross-uses of forged and server-issued tokens of the three kinds / two contexts at every verifier, wrapper and route",
+                                 "histories in one process: 11 tokens x {VerifyJwt, LoginRequiredJSON, LoginRequiredPathJSON, LoginRequiredQuery, LoginRequiredPathQuery, /token/info} presented twice before and twice after the clock "
+                                 "passes the exp of the two short-lived genuine tokens; every one of the distinct genuine bulk tokens presented again after every chunk"]
     c.finish(rule="base tokens x all single-field mutations (algorithm header, signing key, 4 kinds of alteration, each claim absent/mistyped/alternative, expiry offsets from -25h to +8d, nbf/iat) + PRNG(seed) double mutations, "
                   "cross-presented to every verifier; refresh / token-info / e-mail consumers driven through an in-process gin router; the cross-kind matrix (forged + issued by Create*Token) repeated under the secrets in force after every configuration (shipped ini files, site inis with PRNG(seed) secrets); "
-                  "distinct = distinct (operation, parameters, token descriptions) + distinct (configuration, key classes)",
+                  "histories in one process (op 11): PRNG(seed)-ordered presentations around a wait on the server's clock, 5 chunks of distinct genuine tokens each presented again, PRNG(seed) histories; "
+                  "distinct = distinct (operation, parameters, token descriptions) + distinct (configuration, key classes) + distinct (history kind, token, verifier, before/after expiry)",
              assumptions=["MAC idealisation: a token verifies under a secret iff it was signed with it and not altered (HMAC unforgeability, golang-jwt's parser) — built into Model/C16.lib_accepts",
-                          "the three secrets in force are pairwise different HMAC keys: OBSERVED by the check for the package defaults, every shipped ini file and every subset of secrets a site may set (predicate secrets-not-distinct; necessary and sufficient by C16_wrong_kind_iff_distinct_secrets); an assumption only for site secrets the check has not seen (an operator choosing equal values)", "expiry offsets keep 30 s away from the clock so that no case straddles a second boundary"])
+                          "the three secrets in force are pairwise different HMAC keys: OBSERVED by the check for the package defaults, every shipped ini file and every subset of secrets a site may set (predicate secrets-not-distinct; necessary and sufficient by C16_wrong_kind_iff_distinct_secrets); an assumption only for site secrets the check has not seen (an operator choosing equal values)", "expiry offsets keep 30 s away from the clock so that no case straddles a second boundary",
+                          "histories: that the Go verifiers keep no state between requests is VALIDATED by the histories run, not proved (the theorems C16_history_* are about the model, which answers from clock and token alone); "
+                          "the run sees tables of up to 10 240 tokens per process (thorough: 204 800) and expiries passed by a few seconds of real time; a step during which the clock crosses a token's exp is not judged",
+                          "the driver's clock readings (types.NowTS before and after each step) and golang-jwt's time source are the same system clock"])
 
 
 if __name__ == "__main__":
